@@ -1,6 +1,7 @@
 (** Pinned statements of the C07 property theorems: compiled on every check, so a theorem cannot be
     weakened silently. *)
-From V Require Import Base.Util Gql.Ast Peg.Peg Gen.C07_grammar_gen C07.Builder C07.Model C07.AstEq C07.Spec C07.Proofs C07.Lexical C07.Strings C07.Numbers C07.Fuel C07.Properties.
+From V Require Import Base.Util Gql.Ast Peg.Peg Gen.C07_grammar_gen C07.Builder C07.Model C07.AstEq C07.Spec C07.Proofs C07.Lexical C07.Strings C07.Numbers C07.Fuel C07.Shapes C07.Render C07.Properties.
+From V Require Import Peg.PegShape.
 From V Require Import Peg.PegProps.
 
 Check (C07_positions_true : forall inp file (p : pair rule),
@@ -73,6 +74,16 @@ Check (C07_int_lex : forall l post sk i,
 Check (C07_never_out_of_fuel : forall start inp, parse_pairs start inp <> OutOfFuel).
 Check (C07_parse_never_fuel : forall file inp,
   parse_operation_document file inp <> PFuel /\ parse_type_system_document file inp <> PFuel).
+Check (C07_builder_shapes_ok : forall inp start ps r s e kids,
+  parse_pairs start inp = Ok ps ->
+  in_forest (Pair r s e kids) ps ->
+  accepts (pattern_of r) (rules_of kids) = true).
+Check (C07_parse_render_type : forall t pre rest file, wf_rty t = true -> follow_ty rest ->
+  let inp := pre ++ render_ty t ++ rest in
+  let i := slen pre in
+  runs gql_grammar true ANon (Call R_Type) (render_ty t ++ rest) i
+       (Ok (rest, (i + slen (render_ty t))%N, [ty_tree t i]))
+  /\ exists ty', build_type inp file (ty_tree t i) = BOk ty' /\ ty_erase ty' = erase_rty t).
 Print Assumptions C07_positions_true.
 Print Assumptions C07_lone_cr_refuted.
 Print Assumptions C07_block_string_refuted.
@@ -90,3 +101,5 @@ Print Assumptions C07_spec_reads_quote.
 Print Assumptions C07_int_lex.
 Print Assumptions C07_never_out_of_fuel.
 Print Assumptions C07_parse_never_fuel.
+Print Assumptions C07_builder_shapes_ok.
+Print Assumptions C07_parse_render_type.
